@@ -87,12 +87,16 @@ pub struct ReadCfg {
     /// (untouched = what `mlar repair` does, the default)
     #[serde(default)]
     pub explicit_auth_mode: bool,
+    /// (offset, length, times): the stream the reader sees is the image with this range of it repeated `times`
+    /// times in place - generated on the fly, for streams far larger than memory (C11)
+    #[serde(default)]
+    pub replay: Option<(u64, u64, u64)>,
 }
 
 impl ReadCfg {
     pub fn for_cfg(cfg: &ArcCfg) -> ReadCfg {
         let keys = if cfg.enc() { vec![hex::encode(crate::model::key_bytes(cfg.key_seed, cfg.reader))] } else { vec![] };
-        ReadCfg { keys, sched: Sched::Full, budget: u64::MAX / 2, error_at_read: None, spill_path: None, explicit_auth_mode: false }
+        ReadCfg { keys, sched: Sched::Full, budget: u64::MAX / 2, error_at_read: None, spill_path: None, explicit_auth_mode: false, replay: None }
     }
     pub fn key_bytes(&self) -> Vec<[u8; 32]> {
         self.keys
